@@ -182,6 +182,15 @@ def shapes(tier, seed):
         else:
             ok(f'E:indirect-register-after-{name}', isa(operand_sets=osetsE, instructions=insE),
                {'mnemonic': 'j', 'variant': 1, 'text': text, 'uses': [{'set': 'ind', 'id': 'i'}]})
+    # numeric enumeration declared before an enumeration in the same set: the key still wins
+    osetsF = {'any': {'operand_values': {
+        'ne': {'type': 'numeric_enumeration', 'bytecode': {'size': 4, 'value_dict': {1: Sym('f_1', 0, 15), 2: Sym('f_2', 0, 15)}}},
+        'e': {'type': 'enumeration', 'bytecode': {'size': 4, 'value_dict': {'eq': Sym('f_eq', 0, 15)}},
+              'argument': {'size': 8, 'byte_align': True, 'value_dict': {'eq': Sym('fa_eq', 0, 255)}}}}}}
+    cfgF = lambda **cs: isa(operand_sets=osetsF, instructions=insD, consts=cs)  # noqa
+    ok('F:enumeration-key-before-numeric-enumeration', cfgF(), {'mnemonic': 't', 'text': 't eq', 'uses': [{'set': 'any', 'id': 'e', 'key': 'eq'}]})
+    ok('F:numeric-enumeration-for-a-number', cfgF(v1=(-1, 4)), {'mnemonic': 't', 'text': 't v1', 'uses': [{'set': 'any', 'id': 'ne', 'val': V('v1')}]},
+       expect=['ok', 'rejected'])
     rej('D:undeclared-register-form', cfgD2(), 't rb')
     rej('D:indirect-of-unlisted-register', cfgD2(), 't [ix]')
     rej('D:register-in-brackets-as-number', cfgD2(), 't [ra]')
